@@ -142,7 +142,10 @@ def grid(tier, rnd):
     # range, condensing level up to 8 K below the critical temperature (large lifts included).  A point the library refuses to
     # solve (CoolProp's flash routines fail for some fluids / regions) is outside "every cycle the library solves": counted, no verdict
     import CoolProp.CoolProp as CP
-    allf = sorted(CP.FluidsList())
+    # pseudo-pure blends (R410A, R404A, R407C, R507A, SES36, Air) are excluded by the library's own flag: their dew and bubble pressures
+    # differ and CoolProp's two-phase entropies are not consistent for them (SES36: throttling "loses" 0.6 J/kg/K -- a first version
+    # that only compared the two pressures let it through and alarmed in the thorough tier)
+    allf = sorted(f for f in CP.FluidsList() if CP.get_fluid_param_string(f, "pure") == "true")
     for _ in range(150 if tier == "quick" else 4000):
         f = rnd.choice(allf)
         try:
